@@ -744,9 +744,9 @@ func (e *c20Env) pkgWit(rp *verifmc.Report, states []c20WitState) {
 
 type c20Bin struct {
 	e    *c20Env
-	srv  *c19Server
-	conn *c19Conn
+	sess *c19Session
 	cur  *c20BinState
+	launches int
 }
 
 func (e *c20Env) startBin() *c20Bin {
@@ -764,14 +764,13 @@ func (e *c20Env) startBin() *c20Bin {
 		{MonitoringPrefix: "https://" + e.witN.Name, LocalDirectory: e.witN.Dir, Staging: false},
 		{MonitoringPrefix: "https://logs.verif.test/ws", LocalDirectory: e.witS.Dir, Staging: true},
 	}
-	b := &c20Bin{e: e, srv: c19StartServer(c, e.base)}
-	b.conn = c19Dial(b.srv.Addr)
+	b := &c20Bin{e: e, sess: c19NewSession(c, e.base, c19Probe{Host: e.logN.Origin, Path: "/tile/verif-identity", File: filepath.Join(e.logN.Dir, "tile", "verif-identity")})}
 	return b
 }
 
 func (b *c20Bin) stop() {
-	b.conn.Close()
-	b.srv.Stop()
+	b.launches = b.sess.launches
+	b.sess.Stop()
 }
 
 // run puts the four directories into state s and judges GET /health.
@@ -785,11 +784,17 @@ func (b *c20Bin) run(rp *verifmc.Report, s c20BinState) {
 	e.witS.apply(s.WitS)
 	st := s
 	b.cur = &st
-	r := b.conn.Do([]c19Req{{Host: "127.0.0.1", Path: "/health"}})[0]
+	r := b.sess.Do([]c19Req{{Host: "127.0.0.1", Path: "/health"}})[0]
+	// An answer that is not a health answer at all is only judged if it provably
+	// came from our own instance; otherwise the instance is replaced and asked again.
+	for try := 0; try < 3 && r.Err == "" && r.Status != 200 && r.Status != 500 && !b.sess.identityOK(); try++ {
+		b.sess.launch()
+		r = b.sess.Do([]c19Req{{Host: "127.0.0.1", Path: "/health"}})[0]
+	}
 	rp.Eval(s.label())
 	in := c20Input{Mode: "bin", Bin: &st}
 	if r.Err != "" {
-		panic("no response from /health: " + r.Err)
+		panic(verifmc.EngineError{Msg: "no response from /health of the verified instance: " + r.Err})
 	}
 	healthy := c20LogHealthy(s.LogN) && c20WitnessHealthy(s.WitN) && c20MirrorHealthy(s.WitN)
 	body := string(r.Body)
@@ -956,6 +961,7 @@ func c20Run(t *testing.T, rp *verifmc.Report) {
 		}
 	}
 	bin.stop()
+	rp.Add("skylight_launches", float64(bin.launches))
 	rp.Note("binary_states_total", fmt.Sprint(len(binStates)))
 
 	rp.Note("pkg_log_states_total", fmt.Sprint(len(c20JSONs)*len(c20CPs)*len(c20Finals)*len(c20PkgAges)*len(c20PkgLimits)))
